@@ -464,34 +464,9 @@ def single_root_traversal(ck, repo):
 
 
 def _cycle_traversal(ck, repo):
-    mod = repo.mod(c06.CYCLES)
-    cls = mod.cls("FragmentSpreadsMustNotFormCycles")
-    trav = None
-    for m in cls.methods.values():
-        mv = FuncView(m)
-        lp = [l for l in mv.loops() if isinstance(l, ast.For) and unparse(l.iter).endswith(".selections")]
-        if lp:
-            trav = (m, mv, lp[0])
-    if trav is None:
-        raise AnalysisError("cycle rule: traversal loop over selections not found")
-    m, mv, lp = trav
-    var = unparse(lp.target)
-    descents = [c for c in mv.calls(m.name) if contains(lp, c) and any(unparse(a) == f"{var}.selection_set" for a in c.args)]
-    ok = False
-    if descents:
-        conds = mv.conditions(descents[0])
-        ok = (f"isinstance({var}, FragmentSpreadNode)", "F") in conds and all(t in (f"isinstance({var}, FragmentSpreadNode)", f"{var}.selection_set") for t, o in conds)
-    ck.ob("cycle rule: descends into the selection set of every non-spread selection (fields and inline fragments), not only top-level spreads", ok, m,
-          descents[0] if descents else lp, construct="cycle:descend",
-          detail="`fragment A on T { f { ...A } }` is a cycle through a nested selection")
-    spread_rec = [c for c in mv.calls(m.name) if contains(lp, c) and c not in descents]
-    ok = bool(spread_rec) and all((f"isinstance({var}, FragmentSpreadNode)", "T") in mv.conditions(c) for c in spread_rec) and \
-        all(any(unparse(a).endswith(".selection_set") for a in c.args) for c in spread_rec)
-    ck.ob("cycle rule: follows each spread into the spread fragment's selection set", ok, m, spread_rec[0] if spread_rec else lp, construct="cycle:follow-spread")
-    val = cls.methods["validate"]
-    vv = FuncView(val)
-    lp2 = [l for l in vv.loops() if isinstance(l, ast.For) and unparse(l.iter) == val.positional_params[1]]
-    ck.ob("cycle rule: every fragment definition is a starting point", len(lp2) == 1, val, lp2[0] if lp2 else val.node, construct="cycle:all-starts")
+    # what the rule answers - every fragment a starting point, spreads followed, fields and inline fragments descended into - is
+    # decided by interpreting it on every spread graph over three fragments (E13, shared with C06.R2)
+    c06.cycle_rule_terms(ck, repo)
     # the instance registered in RULE_SET aborts the remaining rules (they recurse through spreads without a visited set)
     w = Wiring(repo)
     inst = w.rule_set.get("fragment-spreads-must-not-form-cycles")
